@@ -160,7 +160,7 @@ def zint(v):
 
 
 def is_sym(v):
-    return isinstance(v, (SStr, SInt, SBool, SSplit, SymMap, RawStr))
+    return isinstance(v, (SStr, SInt, SBool, SSplit, SymMap, RawStr, SMatch))
 
 
 # -- the executor -------------------------------------------------------------------------------
@@ -288,8 +288,8 @@ class Executor(object):
             return self.branch(SBool(z3.Length(cond.z) > 0))
         if isinstance(cond, SInt):
             return self.branch(SBool(cond.z != 0))
-        if isinstance(cond, (SSplit,)):
-            return True  # a split result always has at least one piece
+        if isinstance(cond, (SSplit, SMatch)):
+            return True  # a split result always has at least one piece; a match object is true
         if isinstance(cond, SymMap):
             raise Unsupported("truth value of a dict in an arbitrary state")
         return bool(cond)
@@ -646,6 +646,8 @@ class Executor(object):
             raise _Raise(AttributeError(name))
         if isinstance(o, (SStr, SSplit, SymMap, LocalDict, RawStr)):
             return SymMethod(o, name)
+        if isinstance(o, SMatch):
+            return SymMethod(o, name)
         if isinstance(o, (SInt, SBool, Opaque)):
             raise Unsupported("attribute %s of %s" % (name, type(o).__name__))
         try:
@@ -867,6 +869,19 @@ class Executor(object):
             raise Unsupported("dict method %s" % name)
         if isinstance(recv, SSplit):
             raise Unsupported("list method %s on a split result" % name)
+        if isinstance(recv, SMatch):
+            if name == "groups" and not args:
+                return tuple(recv.grps)
+            if name == "group":
+                idx = args[0] if args else 0
+                if not isinstance(idx, int) or isinstance(idx, bool):
+                    raise Unsupported("named / symbolic group index")
+                if idx == 0:
+                    return recv.whole
+                if 1 <= idx <= len(recv.grps):
+                    return recv.grps[idx - 1]
+                raise _Raise(IndexError("no such group"))
+            raise Unsupported("match method %s" % name)
         if isinstance(recv, RawStr):
             if name == "strip" and (not args or args[0] is None):
                 r = recv.core
@@ -970,7 +985,80 @@ class Executor(object):
         return SStr(r)
 
     def call_re(self, f, args, kwargs):
-        raise Unsupported("regular expression on a symbolic string")
+        """re.match / re.fullmatch / re.search and the same methods of a compiled pattern on a
+        symbolic string (subset: literals, classes, ., |, groups, repeats, ^ $ \\A \\Z at the
+        ends; no flags, no back references, no look-around)"""
+        if kwargs:
+            raise Unsupported("keyword arguments to a regular-expression call")
+        name = getattr(f, "__name__", "")
+        slf = getattr(f, "__self__", None)
+        if isinstance(slf, _re.Pattern):
+            pat, rest = slf, list(args)
+        else:
+            if not args or not isinstance(args[0], (str, _re.Pattern)):
+                raise Unsupported("symbolic regular expression")
+            pat, rest = (args[0] if isinstance(args[0], _re.Pattern) else _re.compile(args[0])), list(args[1:])
+        if name not in ("match", "fullmatch", "search") or len(rest) != 1 or not isinstance(rest[0], SStr):
+            raise Unsupported("regular-expression call %s" % name)
+        if pat.flags & ~_re.UNICODE:
+            raise Unsupported("regular-expression flags")
+        return self.re_match(pat.pattern, name, rest[0])
+
+    def re_match(self, pattern, mode, s):
+        try:
+            import re._parser as sre_parse  # python >= 3.11
+            import re._constants as sre_c
+        except ImportError:  # pragma: no cover
+            import sre_constants as sre_c
+            import sre_parse
+        items = list(sre_parse.parse(pattern))
+        start_anch = end_anch = None
+        if items and items[0][0] is sre_c.AT and items[0][1] in (sre_c.AT_BEGINNING, sre_c.AT_BEGINNING_STRING):
+            start_anch = items.pop(0)[1]
+        if items and items[-1][0] is sre_c.AT and items[-1][1] in (sre_c.AT_END, sre_c.AT_END_STRING):
+            end_anch = items.pop()[1]
+        conv = _ReConv(sre_c)
+        parts = []  # (z3 regex, is top-level group)
+        for op, av in items:
+            if op is sre_c.SUBPATTERN:
+                parts.append((conv.seq(av[3]), True))
+            else:
+                parts.append((conv.item(op, av), False))
+        self.bounds_used.add("regular expressions: translated to z3 regular expressions (classes \\d \\w \\s over the code points below U+30000 that CPython puts in them); "
+                             "capture groups only at the top level, their boundaries are any decomposition the pattern allows (exact for unambiguous patterns)")
+        anyre = z3.Full(z3.ReSort(z3.StringSort()))
+        z = s.z
+        vars_ = [self.new_str("re") for _ in parts]
+        cons = [z3.InRe(v, r) for v, (r, _) in zip(vars_, parts)]
+        segs = list(vars_)
+        if mode == "search" and start_anch is None:
+            pre = self.new_str("repre")
+            segs = [pre] + segs
+        if mode == "fullmatch" or end_anch is sre_c.AT_END_STRING:
+            pass
+        elif end_anch is sre_c.AT_END:
+            tail = self.new_str("retail")
+            cons.append(z3.Or(tail == z3.StringVal(""), tail == z3.StringVal("\n")))
+            segs = segs + [tail]
+        else:
+            segs = segs + [self.new_str("retail")]
+        whole = z3.Concat(*[r for r, _ in parts]) if len(parts) > 1 else (parts[0][0] if parts else z3.Re(""))
+        full = whole
+        if mode == "search" and start_anch is None:
+            full = z3.Concat(anyre, full)
+        if mode == "fullmatch" or end_anch is sre_c.AT_END_STRING:
+            pass
+        elif end_anch is sre_c.AT_END:
+            full = z3.Concat(full, z3.Option(z3.Re("\n")))
+        else:
+            full = z3.Concat(full, anyre)
+        if not self.branch(SBool(z3.InRe(z, full))):
+            return None
+        self.side.append(z == (z3.Concat(*segs) if len(segs) > 1 else segs[0]))
+        self.side.extend(cons)
+        groups = [SStr(v) for v, (_, g) in zip(vars_, parts) if g]
+        whole_match = SStr(z3.Concat(*vars_) if len(vars_) > 1 else (vars_[0] if vars_ else z3.StringVal("")))
+        return SMatch(whole_match, groups)
 
     def compare(self, op, a, b):
         if isinstance(op, (ast.Eq, ast.NotEq)):
@@ -1187,6 +1275,114 @@ class Executor(object):
             return fn(a, b)
         except Exception as x:  # noqa: BLE001
             raise _Raise(x)
+
+
+class SMatch(object):
+    """a successful regular-expression match on a symbolic string"""
+
+    def __init__(self, whole, groups):
+        self.whole = whole
+        self.grps = groups
+
+
+class _ReConv(object):
+    """sre_parse tree -> z3 regular expression"""
+
+    def __init__(self, c):
+        self.c = c
+        self.allchar = z3.AllChar(z3.ReSort(z3.StringSort()))
+
+    def seq(self, items):
+        rs = [self.item(op, av) for op, av in items]
+        if not rs:
+            return z3.Re("")
+        return z3.Concat(*rs) if len(rs) > 1 else rs[0]
+
+    def cls(self, pred):
+        key = pred.__name__
+        cache = _ReConv._cache
+        if key not in cache:
+            ranges = []
+            lo = None
+            for cp in range(0x30000):
+                if pred(chr(cp)):
+                    if lo is None:
+                        lo = cp
+                elif lo is not None:
+                    ranges.append((lo, cp - 1))
+                    lo = None
+            if lo is not None:
+                ranges.append((lo, 0x2FFFF))
+            cache[key] = ranges
+        rs = [z3.Range(chr(a), chr(b)) if a != b else z3.Re(chr(a)) for a, b in cache[key]]
+        return z3.Union(*rs) if len(rs) > 1 else rs[0]
+
+    _cache = {}
+
+    def category(self, cat):
+        c = self.c
+
+        def digit(ch):
+            return ch.isdecimal()
+
+        def word(ch):
+            return ch.isalnum() or ch == "_"
+
+        def space(ch):
+            return ch.isspace()
+
+        table = {c.CATEGORY_DIGIT: (digit, False), c.CATEGORY_NOT_DIGIT: (digit, True), c.CATEGORY_WORD: (word, False), c.CATEGORY_NOT_WORD: (word, True),
+                 c.CATEGORY_SPACE: (space, False), c.CATEGORY_NOT_SPACE: (space, True)}
+        if cat not in table:
+            raise Unsupported("regular-expression category %s" % cat)
+        pred, neg = table[cat]
+        r = self.cls(pred)
+        return z3.Diff(self.allchar, r) if neg else r
+
+    def item(self, op, av):
+        c = self.c
+        if op is c.LITERAL:
+            return z3.Re(chr(av))
+        if op is c.NOT_LITERAL:
+            return z3.Diff(self.allchar, z3.Re(chr(av)))
+        if op is c.ANY:
+            return z3.Diff(self.allchar, z3.Re("\n"))
+        if op is c.IN:
+            neg = False
+            rs = []
+            for o2, a2 in av:
+                if o2 is c.NEGATE:
+                    neg = True
+                elif o2 is c.LITERAL:
+                    rs.append(z3.Re(chr(a2)))
+                elif o2 is c.RANGE:
+                    rs.append(z3.Range(chr(a2[0]), chr(a2[1])))
+                elif o2 is c.CATEGORY:
+                    rs.append(self.category(a2))
+                else:
+                    raise Unsupported("regular-expression class item %s" % o2)
+            r = z3.Union(*rs) if len(rs) > 1 else rs[0]
+            return z3.Diff(self.allchar, r) if neg else r
+        if op is c.BRANCH:
+            alts = [self.seq(a) for a in av[1]]
+            return z3.Union(*alts) if len(alts) > 1 else alts[0]
+        if op is c.SUBPATTERN:
+            if av[1] or av[2]:
+                raise Unsupported("regular-expression inline flags")
+            return self.seq(av[3])
+        if op in (c.MAX_REPEAT, c.MIN_REPEAT):
+            lo, hi, sub = av
+            r = self.seq(sub)
+            if hi is c.MAXREPEAT:
+                if lo == 0:
+                    return z3.Star(r)
+                if lo == 1:
+                    return z3.Plus(r)
+                return z3.Concat(z3.Loop(r, lo, lo), z3.Star(r))
+            if (lo, hi) == (0, 1):
+                return z3.Option(r)
+            return z3.Loop(r, lo, hi)
+        raise Unsupported("regular-expression construct %s" % (op,))
 
 
 class Obj(object):
